@@ -215,6 +215,12 @@ Theorem C04_refuted_before_fix_nil_argument :
   exists q S F D, q_nil_arg q = false /\ validate_model q id_order S F D = Panic PNilArgument.
 Proof. exact panic_before_fix_4. Qed.
 
+(** row 30 (validator half): a spread possible only through an implementation the request cannot see *)
+Theorem C04_refuted_before_fix_impl_features :
+  exists q S F D, q_impl_features q = false /\ valid_5_5_2_3 S F D = false /\ validate_model q id_order S F D = Done [].
+Proof. exact accepted_violation_before_fix_30. Qed.
+
+Print Assumptions C04_refuted_before_fix_impl_features.
 Print Assumptions C04_accept_deterministic.
 Print Assumptions C04_validate_no_panic.
 Print Assumptions C04_verdict_deterministic.
